@@ -92,6 +92,35 @@ pub fn cases(tier: Tier) -> Vec<GCase> {
             c.confirm = false;
             out.push(c);
         }
+        // aliased operands: the same witnesses on both sides
+        {
+            let dbl = p1.add(p1).unwrap();
+            let g = Gadget::new(&format!("add_point/{}+same-witnesses", n1), vec![p1.x, p1.y], |c, ins| {
+                let p = typed(c, ins[0], ins[1]);
+                let r = c.component_add_point(p, p);
+                Ok(vec![*r.x(), *r.y()])
+            });
+            let mut c = GCase::new(g, Expect::Sat(vec![dbl.x, dbl.y]), "add_point/aliased");
+            c.bound2 = true;
+            c.rewire = true;
+            out.push(c);
+            let g = Gadget::new(&format!("sub_point/{}-same-witnesses", n1), vec![p1.x, p1.y], |c, ins| {
+                let p = typed(c, ins[0], ins[1]);
+                let r = c.component_sub_point(p, p);
+                Ok(vec![*r.x(), *r.y()])
+            });
+            let mut c = GCase::new(g, Expect::Sat(vec![zero(), one()]), "sub_point/aliased");
+            c.bound2 = true;
+            out.push(c);
+            let g = Gadget::new(&format!("select_point/{}|same-witnesses", n1), vec![one(), p1.x, p1.y], |c, ins| {
+                let p = c.verif_point(ins[1], ins[2]);
+                let r = c.component_select_point(ins[0], p, p);
+                Ok(vec![*r.x(), *r.y()])
+            });
+            let mut c = GCase::new(g, Expect::Sat(vec![p1.x, p1.y]), "select_point/aliased");
+            c.bound2 = true;
+            out.push(c);
+        }
         let neg = p1.neg();
         let g = Gadget::new(&format!("neg_point/{}", n1), vec![p1.x, p1.y], |c, ins| {
             let r = c.component_neg_point(typed(c, ins[0], ins[1]));
